@@ -568,3 +568,66 @@ def quadric_line_3d_lattice(ctx):
             ok = False
             w["exception"] = "%s: %s" % (type(e).__name__, e)
         ctx.ensure("collection-x-single-line:points-on-both", ok, witness=w)
+
+
+@case("C14", "conic.line.2d.lattice", [], kind="bounded", also=("C15",), share=True,
+      functions=["geometer.curve.QuadricTensor.intersect", "geometer.curve.QuadricTensor.components", "geometer.curve.QuadricTensor.tangent", "geometer.curve.QuadricTensor.is_tangent"],
+      bound="6 conics (circles, ellipse, hyperbola, parabola, line pair) x 3 homogeneous representatives of the matrix (1, -1, -2.5) x all secants through pairs of 5-6 known rational points, "
+            "tangents at the known points, 3 missing lines; degenerate conics decomposed, then moved, then decomposed again")
+def conic_line_2d_lattice(ctx):
+    import geometer as g
+    from geometer.curve import Conic, Circle
+    from geometer.transformation import translation, rotation
+
+    fx = [
+        ("circle", np.array([[1.0, 0, 0], [0, 1, 0], [0, 0, -25]]), [(3, 4), (4, 3), (5, 0), (0, -5), (-3, 4), (-4, -3)]),
+        ("unit-circle", np.array([[1.0, 0, 0], [0, 1, 0], [0, 0, -1]]), [(1, 0), (0, 1), (-1, 0), (0, -1), (0.6, 0.8), (-0.8, 0.6)]),
+        ("ellipse", np.array([[1.0, 0, 0], [0, 4, 0], [0, 0, -4]]), [(2, 0), (0, 1), (-2, 0), (0, -1), (1.2, 0.8), (-1.6, 0.6)]),
+        ("hyperbola", np.array([[0.0, 0.5, 0], [0.5, 0, 0], [0, 0, -1]]), [(1, 1), (2, 0.5), (0.5, 2), (-1, -1), (-4, -0.25)]),
+        ("parabola", np.array([[1.0, 0, 0], [0, 0, -0.5], [0, -0.5, 0]]), [(0, 0), (1, 1), (-1, 1), (2, 4), (-3, 9)]),
+    ]
+    for name, A, pts in fx:
+        for scale in (1.0, -1.0, -2.5):
+            C = Conic(A * scale)
+            w0 = dict(conic=name, scale=scale)
+            for p, q in itertools.combinations(pts, 2):
+                L = g.Line(g.Point(*p), g.Point(*q))
+                w = dict(w0, line=(p, q))
+                try:
+                    res = C.intersect(L)
+                    ok = len(res) <= 2 and all(np.abs(x.array).max() > 1e-9 and _on_conic(C, x) for x in res) and all(any(_same_point(x, k) for x in res) for k in (p, q))
+                    w["got"] = str([np.round(np.asarray(x.array, dtype=complex), 4).tolist() for x in res])[:200]
+                except Exception as e:
+                    ok = False
+                    w["exception"] = "%s: %s" % (type(e).__name__, str(e)[:100])
+                ctx.ensure("secant:returns-the-two-known-points(any-representative-of-the-matrix)", ok, witness=w)
+            for p in pts[:4]:
+                P = g.Point(*p)
+                try:
+                    t = C.tangent(P)
+                    res = C.intersect(t)
+                    ok = bool(t.contains(P)) and bool(C.is_tangent(t)) and 1 <= len(res) <= 2 and all(_same_point(x, p, 1e-4) for x in res)
+                except Exception as e:
+                    ok = False
+                ctx.ensure("tangent:touches-at-the-point-only(any-representative-of-the-matrix)", ok, witness=dict(w0, at=p))
+    # degenerate conics: components before and after a motion (derived state must not leak), any representative
+    for (l1, l2) in [((1, 0, 0), (0, -1, 0)), ((1, -1, 0), (1, 1, -2)), ((-1, -1, -2), (1, 0, 0)), ((0, 1, -3), (2, 1, 1))]:
+        for scale in (1.0, -1.0):
+            G, H = g.Line(*l1), g.Line(*l2)
+            C = Conic(np.asarray(Conic.from_lines(G, H).array) * scale)
+            w = dict(lines=(l1, l2), scale=scale)
+            try:
+                comp = C.components
+                ok = len(comp) == 2 and all(np.abs(c.array).max() > 1e-9 for c in comp) and ((comp[0] == G and comp[1] == H) or (comp[0] == H and comp[1] == G))
+                for t in (translation(2, -1), rotation(0.8) * translation(1, 1)):
+                    tc = t * C
+                    tcomp = tc.components
+                    tg, th = t * G, t * H
+                    ok = ok and len(tcomp) == 2 and all(np.abs(c.array).max() > 1e-9 for c in tcomp) and ((tcomp[0] == tg and tcomp[1] == th) or (tcomp[0] == th and tcomp[1] == tg))
+                    circ = Circle(g.Point(0, 0), 5)
+                    pts_ = circ.intersect(tc)
+                    ok = ok and all(_on_conic(tc, x) and _on_conic(circ, x) for x in pts_)
+            except Exception as e:
+                ok = False
+                w["exception"] = "%s: %s" % (type(e).__name__, str(e)[:100])
+            ctx.ensure("degenerate-conic:components-before-and-after-a-motion", ok, witness=w, prop=("C15", "C14"))
